@@ -16,7 +16,7 @@ EXTENDS Text
 
 CONSTANTS MaxLen, AlphaName
 Coarse == {97, 110, 98, 49, 95, 32, 34, 39, 96, 92, 91, 93, 63, 124, 61, 38, 45, 46, 117, 1, 9, 127, 128, 233, 119070, 65533, 123, 58, -255}
-Fine == (0..127) \cup {128, 129, 255, 256, 2047, 2048, 65533, 65535, 65536, 1114111, -128, -192, -255}
+Fine == (0..127) \cup {128, 129, 255, 256, 2047, 2048, 65533, 65535, 65536, 1114111, -128, -192, -255, 65279}
 Alpha == IF AlphaName = "coarse" THEN Coarse ELSE Fine
 VARIABLE s
 Init == s = <<>>
